@@ -1,5 +1,9 @@
 """C07 — size-class transport: correspondence PopulationBalance.py <-> KawinV.PBM, plus an
-independent scalar reference (direct oracle of the property on the implementation)."""
+independent scalar reference (direct oracle of the property on the implementation).
+Second part (corr_grain): real GrainGrowthModel runs (kawin/precipitation/coupling/GrainGrowth.py, the second anchor):
+every getdXdt / getDt / correctdXdt / postProcess call of every iteration is captured by wrappers on the instance and
+checked with the same scalar reference (step limit over the classes from the dissolution index of the CURRENT grid,
+budget, limiter, non-negativity) and replayed through the Lean model (KawinV.PBM, KawinV.Grain.postProcess/getDt/reset)."""
 import math
 import numpy as np
 import vlib
@@ -7,8 +11,8 @@ from vlib import Result, enc_list, f2b, Toks, close
 
 PROP = 'C07'
 META = {
-    'level_text': 'Lean 4 theorems for every grid size, distribution, growth field, nucleation term and step (budget by telescoping, one-sided ends, upwind adjacent-class exchange, unique nucleation class, face-wise limiter and class-wise total-outflow limiter, UNCONDITIONAL non-negativity of the corrected Euler update, step-limit formula, non-negativity under the limit) about an executable model of getdXdtEuler/correctdXdtEuler/getDTEuler; the model is tied to PopulationBalance.py by differential correspondence on every run, and the property predicate is also evaluated on the implementation outputs against an independent scalar reference.',
-    'level_note': 'Trusted: Lean kernel + Mathlib, axioms propext/Classical.choice/Quot.sound; the hand model KawinV.PBM equals the NumPy code only as far as this run compared them (thousands of structured cases); exact-field arithmetic instead of IEEE doubles; NaN/inf growth rates outside the statement.',
+    'level_text': 'Lean 4 theorems for every grid size, distribution, growth field, nucleation term and step (budget by telescoping, one-sided ends, upwind adjacent-class exchange, unique nucleation class, face-wise limiter and class-wise total-outflow limiter, UNCONDITIONAL non-negativity of the corrected Euler update, step-limit formula, non-negativity under the limit; the dissolution index is a function of the stored distribution and grid and invariant under Normalize, GrainGrowthModel.postProcess/reset store the index of the grid they leave, so getDt proposes the limit for the CURRENT grid; witnesses that a re-binning changes the index and that a stale index changes the step) about an executable model of getdXdtEuler/correctdXdtEuler/getDTEuler/getDissolutionIndex and of the order of operations of GrainGrowthModel.postProcess; the model is tied to PopulationBalance.py and GrainGrowth.py by differential correspondence on every run (random PBM cases and every call of every iteration of real GrainGrowthModel runs, explicit Euler and RK4, adaptive grids that extend and re-bin), and the property predicate is also evaluated on the implementation outputs against an independent scalar reference.',
+    'level_note': 'Trusted: Lean kernel + Mathlib, axioms propext/Classical.choice/Quot.sound; the hand model KawinV.PBM equals the NumPy code only as far as this run compared them (thousands of structured cases); exact-field arithmetic instead of IEEE doubles; NaN/inf growth rates outside the statement. Grain-growth part: the grid adjustment inside postProcess is taken as observed (its model is C08), the model ties the ORDER update -> adjust -> index -> normalize; long default-bin runs (thousands of iterations) are in the thorough tier, their Lean replay is sub-sampled (every 10th iteration + all iterations around grid changes), the oracle sees every iteration.',
     'technique': 'Lean 4 proof over ordered fields + model/implementation differential correspondence',
     'design_ref': 'DESIGN.md section 6, C07',
 }
@@ -17,8 +21,10 @@ MONITORED = []
 ASSUMPTIONS = [
     'distributions are non-negative and finite, growth fields finite (NaN/inf growth is outside the statement)',
     'exact-field theorems vs IEEE doubles: sums compared with rtol 1e-9 scaled by the magnitude of the summed terms',
+    'grain growth: the distribution is populated (Normalize divides by the third moment); a cumulative volume within 1e-9 of the maxDissolution threshold or a face within 1e-9 of a pinning threshold is counted as a tie and skipped',
 ]
-TRUSTED = ['np.argmax/np.sign/np.linspace semantics as modelled in KawinV.PBM (compared on every run)']
+TRUSTED = ['np.argmax/np.sign/np.linspace semantics as modelled in KawinV.PBM (compared on every run)',
+           'run-time wrappers set on the GrainGrowthModel / PopulationBalanceModel INSTANCE (getdXdt, correctdXdt, getDt, postProcess, adjustSizeClassesEuler) only observe; /repo is never edited']
 
 
 def gen_case(rng):
@@ -460,6 +466,7 @@ def grain_model(cfg):
 
 def grain_run(cfg):
     """runs the model; returns the captured calls [(kind, iteration, dict)], in call order"""
+    vlib.use_repo()
     from kawin.solver import SolverType
     m = grain_model(cfg)
     rec = []
@@ -568,8 +575,9 @@ def corr_grain(ctx, res, oracle_only=False, cfgs=None, lean_stride=None):
     if cfgs is None:
         rng = ctx.rng
         if ctx.thorough:
-            cfgs = [gen_grain(rng, 'small', 1200) for _ in range(10)] + [gen_grain(rng, 'medium', 3000) for _ in range(3)] + \
-                   [gen_grain(rng, 'default', 8000) for _ in range(3)]
+            cfgs = [gen_grain(rng, 'small', 1200) for _ in range(16)] + [gen_grain(rng, 'medium', 3000) for _ in range(4)] + \
+                   [gen_grain(rng, 'default', 8000) for _ in range(4)]
+            cfgs[-1].update(solver='rk4', tsim=cfgs[-1]['tsim'] * 1e6); cfgs[-2].update(solver='euler', tsim=cfgs[-2]['tsim'] * 1e6)
             # the long default-bin history of the kind that hides a stale index (re-binned 187 -> 100 after ~1800 iterations)
             cfgs.append(dict(bins=[150, 100, 200], cmin=1e-7, cmax=2e-5, M=1e-14, gbe=0.5, alpha=1.0, dist='rayleigh', centre=0.25,
                              width=0.3, s=1, zener=None, maxdiss=1e-6, solver='euler', hist='load', tsim=3e5, maxit=8000))
